@@ -127,7 +127,8 @@ def universe_for_run():
     fresh_pm = U.MetaHook('FreshPM', (object,), {'__init__': U.PM.__init__})
     fresh_nt = type('FreshNT', (collections.namedtuple('FreshNTBase', ['p', 'q']),), {'__slots__': ()})
     fresh_hm = U.MetaHashHook('FreshHM', (object,), {'__init__': U.PM.__init__})
-    return [U.CA, CAsub, U.NTM, fresh_nt, fresh_tm, fresh_pm, U.STRUCTSEQ_TYPES[0], U.CE, list, dict, type(None), deque, MARKERS[0]] + list(SCALARS) + [fresh_hm]
+    fresh_falsy = U.FalsyMeta('FreshFalsy', (object,), {'__init__': U.PM.__init__})  # a class object that is falsy
+    return [U.CA, CAsub, U.NTM, fresh_nt, fresh_tm, fresh_pm, U.STRUCTSEQ_TYPES[0], U.CE, list, dict, type(None), deque, MARKERS[0]] + list(SCALARS) + [fresh_hm, fresh_falsy]
 
 
 def _called_from_optree():
@@ -256,6 +257,9 @@ def observe(model, types, instances, all_funcs, viol, site, probes):
                 viol('observe-raised', site, 'register_pytree_node.get(%s, namespace=%r) raised %s' % (cls.__name__, ns, type(e).__name__))
                 continue
             want_kind, want_f = expected_kind(model, cls, ns, False)
+            if h is not None and not hasattr(h, 'flatten_func'):
+                viol('mirror-mismatch', site, 'register_pytree_node.get(%s, namespace=%r) returned a %s, not a registry entry or None' % (cls.__name__, ns, type(h).__name__))
+                continue
             if want_f is not None:
                 if h is None or h.flatten_func != want_f.flatten or h.unflatten_func != want_f.unflatten or h.type is not cls:
                     viol('mirror-mismatch', site, 'register_pytree_node.get(%s, namespace=%r) = %s, model says registration %r' % (cls.__name__, ns, short(h), want_f.rid))
@@ -297,6 +301,8 @@ def observe(model, types, instances, all_funcs, viol, site, probes):
 def short(h):
     if h is None:
         return 'None'
+    if not hasattr(h, 'flatten_func'):
+        return 'not a registry entry: %s' % type(h).__name__
     ff = getattr(h.flatten_func, '__self__', None)
     rid = getattr(ff, 'rid', None)
     return 'Entry(type=%s, kind=%s, ns=%r, rid=%r)' % (getattr(h.type, '__name__', h.type), int(h.kind), h.namespace, rid)
@@ -614,7 +620,7 @@ def _run_body(job, io, tape):
                 oplog.append('dataclass-retry(Plain,a)->ok')
                 observe(model, types, instances, all_funcs, viol, 'dataclass:retry', probes)
             retry_cls = None
-        keys.add('%s|%s|%s|%s|%s' % (hash(model.digest(types)) & 0xffff, opk, getattr(cls, '__name__', cls) if cls in types[:17] else 'DC', fault or '-', outcome.split(':')[0]))
+        keys.add('%s|%s|%s|%s|%s' % (hash(model.digest(types)) & 0xffff, opk, getattr(cls, '__name__', cls) if cls in types[:18] else 'DC', fault or '-', outcome.split(':')[0]))
         if violations:
             break
     # ---- reversibility: unregister everything, state must equal the pristine one
